@@ -375,7 +375,9 @@ def check(ctx):
     ctx.inst('R6', ip, 'intersection-point', retsi == ['line_base + line_vector * dist_on_line'], 'intersection = l0 + l * d; returns %s' % retsi)
     idist = S.method('calc_intersection_distance')
     std = {norm(s_.targets[0]): norm(s_.value) for s_ in idist.node.body if isinstance(s_, ast.Assign)}
-    ctx.inst('R6', idist, 'diagonal=distance-of-intersections', std.get('distance') == 'np.linalg.norm(intersection1 - intersection2)', 'sensor distance = |i1 - i2|')
+    retd = [norm(s_.value) for s_ in walk_own(idist.node) if isinstance(s_, ast.Return) and s_.value is not None]
+    dval = std.get('distance') if retd == ['distance'] else (retd[0] if len(retd) == 1 else None)          # through the local or returned directly
+    ctx.inst('R6', idist, 'diagonal=distance-of-intersections', dval == 'np.linalg.norm(intersection1 - intersection2)', 'sensor distance = |i1 - i2|; found %s' % dval)
     md = S.method('_calculate_mean_diagonal')
     dg = [norm(c.args[0]) for c in ast.walk(md.node) if method_call(c, 'append') and norm(c.func.value) == 'diagonals']
     ctx.inst('R6', md, 'diagonal-sensor-pairs', sorted(dg) == sorted(['cls.calc_intersection_distance(vectors[0], vectors[3], bs_poses[bs_id], cf_pose)', 'cls.calc_intersection_distance(vectors[1], vectors[2], bs_poses[bs_id], cf_pose)']),
